@@ -72,7 +72,19 @@ def check_c14(tier):
                 subs = [[refb, b] for b in r.sample([x for x in 'ACGT' if x != refb], r.randrange(1, 3))]
                 th = dict(min_coverage_alt=r.choice([1, 3, 10]), min_frequency_alt=r.choice([0.0625, 0.125, 0.25, 0.5]),
                           min_coverage_rna=r.choice([5, 10, 20]), min_coverage_dna=r.choice([-1, 5, 10]))
-                gcov = r.choice([-1, None, 0, 4, 5, 10, 50])
+                if r.random() < 0.5:
+                    # boundary cases: frequency exactly at / just around the threshold, counts at the minima
+                    den = int(1 / th['min_frequency_alt'])
+                    k = r.choice([1, 2, 3, th['min_coverage_alt']])
+                    alt_n = k + r.choice([0, 0, -1, 1]) if k > 1 else k
+                    total = k * den
+                    ai = 'ACGT'.index(subs[0][1]); ri = 'ACGT'.index(refb)
+                    counts = [0, 0, 0, 0]
+                    counts[ai] = max(0, alt_n)
+                    counts[ri] = max(0, total - counts[ai])
+                    if r.random() < 0.3:
+                        th['min_coverage_rna'] = sum(counts) + r.choice([0, 1, -1])
+                gcov = r.choice([-1, None, 0, 4, 5, 9, 10, 11, 50])
                 sel = [t for t in gtx if r.random() < 0.8 and t['exons'][0][0] <= pos < t['exons'][-1][1]]
                 if not sel:
                     continue
